@@ -23,7 +23,7 @@ ASSUMPTIONS = [
     "fake Device/Storage/Interface classes are the repository's test fakes (tests/annet/test_mesh/fakes.py)",
     "handlers set address families and shared options on the session only (per-peer families would legitimately differ between the two ends)",
 ]
-FLOORS = {"quick": {"topologies": 250, "executions": 3000, "mirrored_pairs": 600, "permutations_compared": 1500, "conflicts_expected": 30, "merge_law_checks": 3000, "shared_handler_constants_checked": 200, "peer_options_checked": 300, "shared_executor_runs": 150, "shared_executor_runs_with_differently_named_link_ends": 80, "linklocal_cases_with_two_neighbours_sharing_an_address": 25, "cases_with_family_only_device_handlers": 60, "family_only_handler_devices": 60, "cases_with_full_names_and_an_included_registry": 30},
+FLOORS = {"quick": {"topologies": 250, "executions": 3000, "mirrored_pairs": 600, "permutations_compared": 1500, "conflicts_expected": 30, "merge_law_checks": 3000, "shared_handler_constants_checked": 200, "peer_options_checked": 300, "shared_executor_runs": 150, "shared_executor_runs_with_differently_named_link_ends": 80, "linklocal_cases_with_two_neighbours_sharing_an_address": 25, "cases_with_family_only_device_handlers": 60, "family_only_handler_devices": 60, "cases_with_full_names_and_an_included_registry": 30, "indirect_sessions_with_differently_named_ends": 12},
           "thorough": {"topologies": 9000, "executions": 100000, "mirrored_pairs": 20000, "permutations_compared": 50000, "conflicts_expected": 1000, "merge_law_checks": 100000, "shared_handler_constants_checked": 7000, "peer_options_checked": 10000, "shared_executor_runs": 5000, "shared_executor_runs_with_differently_named_link_ends": 2500, "linklocal_cases_with_two_neighbours_sharing_an_address": 800}}
 
 
@@ -67,6 +67,7 @@ def build_topology(topo):
     devs = {}
     for n in topo["devices"]:
         ifs[n].append(FakeInterface("lo0", None, None))
+        ifs[n].append(FakeInterface("lo1", None, None))
         d = FakeDevice(n, ifs[n])
         d.storage = st
         st.add_device(d)
@@ -225,6 +226,8 @@ def make_registry(rules, order, fq=False):
                     setattr(session, k_, v_)
                 if r["iface"] == "svi":
                     left.svi = right.svi = 77
+                elif r["iface"] == "lo0/lo1":
+                    left.ifname, right.ifname = "lo0", "lo1"      # each end names its own interface
                 elif r["iface"].startswith("lo0"):
                     left.ifname = right.ifname = "lo0"
                     if r["iface"] == "lo0+subif":
@@ -368,6 +371,10 @@ def check_case(seed, acc, ll=False, ext=False):
         topo["fq"] = True
         acc.count("cases_with_full_names_and_an_included_registry")
     if ext:
+        irng = random.Random(seed ^ 0x1F0)
+        for r_ in rules:
+            if r_["type"] == "indirect" and r_["iface"] in ("lo0", "none") and r_["left"].startswith("spine") and not r_.get("mesh2") and irng.random() < 0.9:
+                r_["iface"] = "lo0/lo1"
         erng = random.Random(seed ^ 0xE87)
         drs = [r_ for r_ in rules if r_["type"] == "direct" and r_["role"] == "base"]
         if drs and erng.random() < 0.7:
@@ -551,6 +558,23 @@ def _check_case(seed, acc, rng, topo, rules):
             for opt in ("bfd", "send_community", "add_path", "multipath", "send_labeled", "advertise_irb", "bfd_timers"):
                 if p["options"].get(opt) != q["options"].get(opt):
                     acc.violation("C15/session-option-differs-between-ends", "a session-level option differs between the two ends", dict(w, device=A, option=opt, peer=p, mirror=q))
+                    return w
+    # indirect sessions whose two ends name different interfaces: each end's address sits on the interface ITS side of the handler named
+    for r in [r for r in rules if r["type"] == "indirect" and r["iface"] == "lo0/lo1"]:
+        if sum(1 for r2 in rules if r2["type"] == "indirect" and r2["net"] == r["net"]) > 1:
+            continue
+        for A in topo["devices"]:
+            ra = res0[A]
+            if ra[0] != "ok":
+                continue
+            for p in ra[1]:
+                if not p["addr"].startswith("172.16.%d." % r["net"]):
+                    continue
+                want_if = "lo0" if int(p["addr"].split(".")[3]) >= 100 else "lo1"     # the peer is the right end <=> this device is the left end
+                acc.count("indirect_sessions_with_differently_named_ends")
+                if p["interface"] != want_if:
+                    acc.violation("C15/indirect-session-on-the-other-ends-interface", "an indirect session is attached to the interface the handler named for the other end",
+                                  dict(w, device=A, peer=p, expected_interface=want_if))
                     return w
     # expected table for direct rules (base order)
     for A in topo["devices"]:
